@@ -197,7 +197,7 @@ def check_case(case):
                 got = mv.get(m, 'unset')
                 if not (got == exp or (_is_nan(got) and _is_nan(exp))):
                     res.add(viol('metric_values_do_not_mirror', f'x={x} {m}: stored {got} expected {exp}'))
-        if len(res.violations) > 4:
+        if len(res.violations) > 40:
             break
     res.evaluations = max(1, n_eval)
     res.nontrivial = absent_seen and present_seen
